@@ -131,6 +131,7 @@ def run_C13(ctx):
     from . import p_wire, p_serve, p_frames
     quick = ctx.tier == "quick"
     core.design_check(ctx, "MC_Pools", "MC_Pools.cfg", workers=2)
+    core.tlaps(ctx, "PoolsProof")      # the ownership rule for any number of buffers and calls
     core.design_check(ctx, "MC_Wire", "MC_Wire_Q.cfg")
     # (1) many goroutines, pairwise-distinct payloads, one client and one handler per configuration
     scen = []
